@@ -109,12 +109,12 @@ pub fn run(ctx: &mut Ctx) {
         "Bounded: (capacity, start, len, storage kind, element type, operation sequence); Fixed: (length, first, storage, element type, operation sequence). \
          Step relation: every valid (start, len) / first for capacities 1..=12 (thorough 1..=24) x every single operation with every argument up to capacity+1 \
          (3N for Fixed's wrapping indices), over guarded &mut[T] storage and arrays; histories: proptest sequences of up to 300 (thorough 2000) operations over \
-         capacities up to 64, all four storage kinds, u32 and [f32;2] elements; after EVERY operation the whole observable state is compared with the model. \
+         capacities up to 64, all four storage kinds, u32 and [f32;2] elements, and for Fixed (which does not require Copy) an element type with a destructor whose every drop is recorded in a ledger; after EVERY operation the whole observable state is compared with the model. \
          Non-trivial: an operation executed from a state whose start/first is not 0. Enumerations are distinct by construction, histories de-duplicated by hash.",
     );
     ctx.assume("model = VecDeque of the live elements (Bounded) / rotating array (Fixed); every slot carries a distinct sentinel and the backing slice sits between canary guard zones, so reads of dead slots or neighbouring memory show up as values the model cannot explain");
     ctx.assume("the step relation is checked from every state of the enumerated capacities, which covers histories of any length for those capacities");
-    for c in ["indexed read after wrap", "pop-then-push in a wrapped buffer", "drain partially", "set_first then push", "push returns value pushed N pushes earlier", "index wraps modulo N"] {
+    for c in ["indexed read after wrap", "pop-then-push in a wrapped buffer", "drain partially", "set_first then push", "push returns value pushed N pushes earlier", "index wraps modulo N", "owned elements: more pushes than slots"] {
         ctx.require_class(c);
     }
 
@@ -184,6 +184,13 @@ pub fn run(ctx: &mut Ctx) {
     let max_ops = ctx.pick(300usize, 2000);
     ctx.prop("bounded/histories", ctx.pick(10_000, 60_000), bcase(64, max_ops), check_bounded);
     ctx.prop("fixed/histories", ctx.pick(10_000, 60_000), fcase(64, max_ops), check_fixed);
+    // Fixed does not require Copy elements: the same histories over an element type with a destructor
+    let owned = fcase(24, 120).prop_map(|mut c| {
+        c.elem = ElemTy::Owned;
+        c.storage = Storage::Vec;
+        c
+    });
+    ctx.prop("fixed/histories-owning-elements", ctx.pick(10_000, 60_000), owned, check_fixed);
 
     // (c) constructors
     let mut cases = Vec::new();
